@@ -48,7 +48,7 @@ func genC10(r *h.Rng, tier string, idx int) *h.Plan {
 		if r.P(1, 7) {
 			// replaced by a rule that has a schedule instead of a `when`: "re-adding
 			// under the same id replaces the old rule entirely", its pattern included
-			rule = map[string]interface{}{"schedule": "+1h", "action": map[string]interface{}{"code": fmt.Sprintf("'%s.m%d'", id, marker)}}
+			rule = map[string]interface{}{"schedule": "*/5 * * * * * *", "action": map[string]interface{}{"code": fmt.Sprintf("'%s.m%d'", id, marker)}}
 		}
 		if r.P(1, 6) {
 			rule["ttl"] = "20s"
@@ -98,6 +98,12 @@ func genC10(r *h.Rng, tier string, idx int) *h.Plan {
 	var events []interface{}
 	for _, id := range all {
 		events = append(events, map[string]interface{}{"ev": id}, map[string]interface{}{"ev2": id})
+	}
+	// the form a cron tick takes: an event that names the rule to run (it also
+	// carries what a `when` of that rule asks for); a disabled, removed or
+	// replaced rule must not run this way either
+	for _, id := range own["L"] {
+		events = append(events, map[string]interface{}{"trigger!": id, "ev": id, "ev2": id})
 	}
 	p.Cfg["events"] = events
 	return p
